@@ -16,6 +16,9 @@ import re
 import vlib
 
 
+HEAP = "4g"   # the models are small; a bounded heap keeps several concurrent checks out of the OOM killer
+
+
 def load_own_findings(ctx):
     """findings_C20.json (owned by this check) lists the genuine defects; entries of kind "known"
     are still in the tree and must be reported as KNOWN-FINDING, not as new violations."""
@@ -56,11 +59,11 @@ def main(ctx):
 
     # M ---------------------------------------------------------------------------------------
     tier = "thorough" if thorough else "quick"
-    laws = ctx.tlc_model("BitVecLaws", "BitVecLaws_%s.cfg" % tier, timeout=1500)
+    laws = ctx.tlc_model("BitVecLaws", "BitVecLaws_%s.cfg" % tier, timeout=1500, heap=HEAP)
     ctx.expect_vacuity("BitVecLaws states", laws.distinct)
     ctx.extra["laws_states"] = laws.distinct
     cases = ctx.path("cases.ndjson")
-    gen = ctx.tlc_model("ObiFpCases", "ObiFpCases_%s.cfg" % tier, env={"VERIF_CASES": cases}, timeout=1500)
+    gen = ctx.tlc_model("ObiFpCases", "ObiFpCases_%s.cfg" % tier, env={"VERIF_CASES": cases}, timeout=1500, heap=HEAP)
     allcases = vlib.read_cases(cases)
     ctx.expect_vacuity("exported obifp cases", len(allcases))
     if 2 * len(allcases) != gen.distinct:
@@ -112,7 +115,11 @@ def main(ctx):
 
 
 def validate(ctx, trace):
-    events, rejects = ctx.trace_validate("ObiFpTrace", "ObiFpTrace.cfg", trace, timeout=1500)
+    jtmp = ctx.path("trace-jtmp")
+    os.makedirs(jtmp, exist_ok=True)
+    events, rejects = ctx.trace_validate(
+        "ObiFpTrace", "ObiFpTrace.cfg", trace, timeout=1500,
+        env={"JAVA_TOOL_OPTIONS": "-Xss512m -Xmx%s -Djava.io.tmpdir=%s" % (HEAP, jtmp)})
     for r in rejects:
         ev = events[r["l"] - 1]
         why = list(r["why"])
